@@ -27,10 +27,12 @@ N == Len(TraceLog)
 VARIABLES c,      \* history being consumed
           j,      \* next event of it
           memo,   \* family -> kind -> id of the reference result
+          dev,    \* the current history already deviated (only its FIRST deviating call is reported: with all
+                  \* histories enumerated every defect also shows up in a history where it comes first)
           ret     \* returned values of the current history: [x: exception class, r: id of the producing result, ok: not yet seen altered]
-tvars == <<c, j, memo, ret, vars>>
+tvars == <<c, j, memo, dev, ret, vars>>
 
-TraceInit == /\ c = 1 /\ j = 1 /\ memo = FreshIds /\ ret = <<>>
+TraceInit == /\ c = 1 /\ j = 1 /\ memo = FreshIds /\ ret = <<>> /\ dev = FALSE
              /\ Init                                   \* (the design-model variables of Reuse stay idle)
              /\ TLCSet(1, <<>>) /\ TLCSet(2, 0) /\ TLCSet(3, 0) /\ TLCSet(4, 0)
 
@@ -56,7 +58,8 @@ Judge == (IF CallOK THEN <<>> ELSE <<Rec("history-dependent", 0)>>)
          \o [n \in 1..Cardinality(Altered) |-> Rec("alters-returned", SetToSeq(Altered)[n])]
 
 TCall == /\ c <= N /\ j <= Len(TraceLog[c].ev)
-         /\ LET b == Judge IN
+         /\ LET b == IF dev THEN <<>> ELSE Judge IN
+            /\ dev' = (dev \/ b # <<>>)
             /\ (IF b = <<>> \/ Len(TLCGet(1)) >= MaxBad THEN TRUE ELSE TLCSet(1, TLCGet(1) \o b))
             /\ (IF b = <<>> THEN TRUE ELSE TLCSet(3, TLCGet(3) + Len(b)))
          /\ TLCSet(4, TLCGet(4) + 1)
@@ -67,7 +70,7 @@ TCall == /\ c <= N /\ j <= Len(TraceLog[c].ev)
          /\ j' = j + 1 /\ UNCHANGED <<c, vars>>
 
 TEnd == /\ c <= N /\ j > Len(TraceLog[c].ev)
-        /\ c' = c + 1 /\ j' = 1 /\ ret' = <<>> /\ UNCHANGED <<memo, vars>>        \* TraceReset: next history starts on a fresh instance
+        /\ c' = c + 1 /\ j' = 1 /\ ret' = <<>> /\ dev' = FALSE /\ UNCHANGED <<memo, vars>>        \* TraceReset: next history starts on a fresh instance
         /\ TLCSet(2, c)
 
 TraceNext == TCall \/ TEnd
